@@ -40,7 +40,9 @@ demo_src = os.path.join(out, X + "_demo.rs")
 demo_dst = os.path.join(wt, "crates", crate, "tests", tname + ".rs")
 demo_cmd = ["cargo", "test", "-p", crate, "--offline", "--test", tname]
 if crate == "vecdb":
-    demo_cmd += ["--features", "pco"]
+    mf = re.search(r"--features[ =]([a-z0-9_,]+)", md)
+    feats = set((mf.group(1) if mf else "pco").split(",")) | {"pco"}
+    demo_cmd += ["--features", ",".join(sorted(feats))]
 demo_cmd += ["--", "--nocapture", "--test-threads=1"]
 res = {"property": prop, "change": X, "demo_test": "crates/%s/tests/%s.rs" % (crate, tname), "demo_cmd": " ".join(demo_cmd)}
 shutil.copy(demo_src, demo_dst)
